@@ -8,6 +8,8 @@ MC = "sktime/performance_metrics/forecasting/_classes.py"
 NV = "sktime/forecasting/naive.py"
 TR = "sktime/forecasting/trend.py"
 SM = "sktime/forecasting/base/adapters/_statsmodels.py"
+EV = "sktime/forecasting/model_evaluation/_functions.py"
+TU = "sktime/forecasting/model_selection/_tune.py"
 MUTANTS = [
  ("C01", "get_end_plus1", S, "end = n_timepoints - fh_max + 1", "end = n_timepoints - fh_max + 2"),
  ("C01", "sliding_test_shift", S, "            train = np.arange(split_point - window_length, split_point)\n            test = split_point + fh - 1", "            train = np.arange(split_point - window_length, split_point)\n            test = split_point + fh"),
@@ -51,4 +53,15 @@ MUTANTS = [
  ("C03", "trend_abs_int_from_zero", TR, "fh = self.fh.to_absolute_int(self._y.index[0], self.cutoff)", "fh = self.fh.to_absolute_int(0, self.cutoff)"),
  ("C03", "ensemble_resets_index", "sktime/forecasting/compose/_ensemble.py", "        y_pred = pd.concat(self._predict_forecasters(fh, X), axis=1)", "        y_pred = pd.concat([p.reset_index(drop=True) for p in self._predict_forecasters(fh, X)], axis=1)"),
  ("C05", "recursive_indexer_shift", R, "        fh_idx = fh.to_indexer(self.cutoff)\n        return y_pred[fh_idx]", "        fh_idx = fh.to_indexer(self.cutoff)\n        return y_pred[fh_idx - (fh_idx[0] > 0)]"),
+ ("C07", "metric_args_swapped_again", EV, "score = scoring(y_test, y_pred)", "score = scoring(y_pred, y_test)"),
+ ("C07", "train_until_last_test", EV, "    y_train = y.iloc[train]\n", "    y_train = y.iloc[train[0] : test[0] + (len(test) > 2)]\n"),
+ ("C07", "first_fold_skipped_on_update", EV, '        if i == 0 or strategy == "refit":', '        if i <= 1 or strategy == "refit":'),
+ ("C07", "cutoff_from_test", EV, '"cutoff": forecaster.cutoff,', '"cutoff": y_test.index[0] - 1,'),
+ ("C07", "x_test_one_short", EV, "test = np.arange(test[0] - fh.min(), test[-1]) + 1", "test = np.arange(test[0] - fh.min(), test[-1]) + 1 - (fh.min() > 1)"),
+ ("C07", "len_train_counts_test", EV, '"len_train_window": len(y_train),', '"len_train_window": len(y_train) + (len(y_test) if i > 2 else 0),'),
+ ("C08", "argmax_for_losses", TU, "            ascending=not scoring.greater_is_better\n", "            ascending=bool(scoring.greater_is_better)\n"),
+ ("C08", "refit_last_candidate", TU, "self.best_forecaster_ = clone(self.forecaster).set_params(**self.best_params_)", "self.best_forecaster_ = clone(self.forecaster).set_params(**results.loc[len(results) - 1, \"params\"])"),
+ ("C08", "strategy_not_forwarded", TU, "                strategy=self.strategy,\n", "                strategy=\"refit\",\n"),
+ ("C08", "best_score_from_first_row", TU, 'self.best_score_ = results.loc[self.best_index_, f"mean_{scoring_name}"]', 'self.best_score_ = results.loc[0 if len(results) > 3 else self.best_index_, f"mean_{scoring_name}"]'),
+ ("C08", "random_state_dropped", TU, "self.param_distributions, self.n_iter, random_state=self.random_state", "self.param_distributions, self.n_iter, random_state=0 if self.n_iter > 2 else self.random_state"),
 ]
